@@ -105,6 +105,8 @@ class Interp(BuiltinsMixin):
             return App('global', Const(b.module.name),
                        Const(ast.unparse(node)[:60]),
                        self.snapshot(v, path))
+        if isinstance(v, App) and v.op in ('methodcaller', 'attrgetter'):
+            return v        # immutable callables
         if (isinstance(v, App) and v.op == 'call' and
                 isinstance(v.args[0], (ERef, CRef))) or (
                 isinstance(v, New) and isinstance(v.ci, ExtClass)):
@@ -623,7 +625,9 @@ class Interp(BuiltinsMixin):
                     isinstance(it.args[0], Obj):
                 it = it.args[0]       # what a generator call yields
             items = self.concrete_iter(it, p)
-            if items is not None and len(items) <= 8:
+            if items is not None and (len(items) <= 8 or (
+                    len(items) <= 24 and all(isinstance(x, Const)
+                                             for x in items))):
                 out.extend(self.unrolled_for(st, items, fr, p))
                 continue
             cparts = None
@@ -879,6 +883,10 @@ class Interp(BuiltinsMixin):
         for e in exits:
             if (e, False) not in after.pc:
                 after.pc.append((e, False))
+        if is_for and _endless(loop.iterable) and \
+                not any(sig == BRK for (_, sig) in results):
+            # `for i in itertools.count():` ends only through return / raise
+            return out
         out = self.exec_block(st.orelse, fr, after) + out
         return out
 
@@ -1111,10 +1119,18 @@ class Interp(BuiltinsMixin):
         """inline a package function -> list[(path, value|Raise)]"""
         fi = fref.fi
         fnode = fref.node
+        if not getattr(fref, 'raw', False) and \
+                isinstance(fnode, ast.FunctionDef) and fnode.decorator_list:
+            decs = user_decorators(fnode)
+            if decs and self.hooks.inline(self, fi, args):
+                # (a function the rule keeps symbolic stays the named
+                # function: its decorators do not matter to the caller)
+                return self.call_decorated(fref, decs, args, kw, path, node)
         depth = len(self.stack)
+        forced = id(fnode) in getattr(self, '_forced', ())
         if depth >= self.max_depth or \
                 sum(1 for f in self.stack if f.node is fnode) >= 2 or \
-                not self.hooks.inline(self, fi, args):
+                not (forced or self.hooks.inline(self, fi, args)):
             v = App('call', fref, Tup(args), Tup(Tup((Const(k), a))
                                                   for k, a in kw))
             self.event(path, 'call', fref, None, (args, kw), node)
@@ -1151,6 +1167,48 @@ class Interp(BuiltinsMixin):
         finally:
             self.stack.pop()
         return res
+
+    def call_decorated(self, fref, decs, args, kw, path, node):
+        """f = d1(d2(raw)) for `@d1 @d2 def f`: the decorators (functions of
+        the package) are applied, then the result is called"""
+        fi = fref.fi
+        raw = FRef(fi, closure=fref.closure, node=fref.node, raw=True)
+        cur = [(path, raw)]
+        for d in reversed(decs):
+            nxt = []
+            for (p, c) in cur:
+                if isinstance(c, Raise):
+                    nxt.append((p, c))
+                    continue
+                fr = fref.closure if fref.closure is not None else \
+                    self.module_frame(fi.module, p)
+                for (q, dv) in self.eval(d, fr, p):
+                    if isinstance(dv, Raise):
+                        nxt.append((q, dv))
+                    elif isinstance(dv, (FRef, Bound)):
+                        # the decorator itself and the wrapper it returns
+                        # *are* the function being inlined
+                        if not hasattr(self, '_forced'):
+                            self._forced = set()
+                        dn = dv.node if isinstance(dv, FRef) else dv.f.node
+                        self._forced.add(id(dn))
+                        for (q2, w) in self.call_value(dv, [c], [], q, node):
+                            if isinstance(w, FRef):
+                                self._forced.add(id(w.node))
+                            nxt.append((q2, w))
+                    else:
+                        self.inconclusive('decorator `%s` of %s is not a '
+                                          'function of the package' % (
+                                              ast.unparse(d), fi.short()),
+                                          node)
+            cur = nxt
+        out = []
+        for (p, c) in cur:
+            if isinstance(c, Raise):
+                out.append((p, c))
+            else:
+                out.extend(self.call_value(c, args, kw, p, node))
+        return out
 
     def run_generator(self, fnode, fr, path):
         """a generator function is summarised as the list of what it yields"""
@@ -1269,6 +1327,43 @@ def prologue_helpers(entry):
             continue
         out.add(f.qn)
     _PROLOGUE[key] = out
+    return out
+
+
+def _endless(it):
+    """an iterator that never stops: itertools.count(..), itertools.cycle(x)
+    of a non-empty x is not decided, itertools.repeat(x) with one argument"""
+    if isinstance(it, App) and it.op == 'iter' and it.args:
+        it = it.args[0]
+    if isinstance(it, App) and it.op == 'call' and \
+            isinstance(it.args[0], ERef):
+        n = it.args[0].name
+        nargs = len(it.args[1].items) if len(it.args) > 1 and \
+            isinstance(it.args[1], Tup) else 0
+        return n == 'itertools.count' or (n == 'itertools.repeat' and
+                                          nargs == 1)
+    return False
+
+
+_NOOP_DECORATORS = ('staticmethod', 'classmethod', 'property',
+                    'abstractmethod', 'abc.abstractmethod', 'wraps',
+                    'functools.wraps')
+
+
+def user_decorators(fnode):
+    """decorator expressions that change what the name is bound to (the
+    descriptor decorators are handled where attributes are looked up;
+    functools.wraps only copies the name and docstring)"""
+    out = []
+    for d in fnode.decorator_list:
+        f = d.func if isinstance(d, ast.Call) else d
+        name = ast.unparse(f)
+        if name in _NOOP_DECORATORS:
+            continue
+        if isinstance(f, ast.Attribute) and f.attr in ('setter', 'getter',
+                                                       'deleter'):
+            continue
+        out.append(d)
     return out
 
 
